@@ -1,0 +1,48 @@
+//go:build verif
+
+// Verification hooks (add-only, compiled only with -tags verif): thin exported
+// wrappers around unexported pruner methods so that a harness can drive the
+// pruner deterministically without the Run loop, feeds or tickers.
+package pruner
+
+import (
+	"context"
+	"time"
+
+	"github.com/NethermindEth/juno/core"
+)
+
+func (p *Pruner) VerifOnNewBlock(ctx context.Context, block *core.Block) error {
+	return p.onNewBlock(ctx, block)
+}
+
+func (p *Pruner) VerifOnNewL1Head(ctx context.Context, l1Head *core.L1Head) error {
+	return p.onNewL1Head(ctx, l1Head)
+}
+
+func (p *Pruner) VerifPruneUpto(ctx context.Context, oldestBlockToKeep uint64) error {
+	return p.pruneUpto(ctx, oldestBlockToKeep)
+}
+
+func (p *Pruner) VerifSampleHeight() error { return p.sampleHeight() }
+
+func (p *Pruner) VerifSeedFloor() error { return p.seedFloor() }
+
+func (p *Pruner) VerifLatestSampledHeight() uint64 { return p.latestSampledHeight }
+
+func (p *Pruner) VerifSetLatestSampledHeight(h uint64) { p.latestSampledHeight = h }
+
+func (p *Pruner) VerifPendingL2Heads() uint64 { return p.pendingL2Heads }
+
+func (p *Pruner) VerifSetPendingL2Heads(n uint64) { p.pendingL2Heads = n }
+
+// VerifFloor returns the published state-retention floor and whether it is seeded.
+func (f *RetentionFloor) VerifFloor() (uint64, bool) { return f.floor() }
+
+func VerifWithinTimeWindow(ts uint64, window time.Duration) bool {
+	return withinTimeWindow(ts, window)
+}
+
+const VerifDefaultTargetBatchByteSize = defaultTargetBatchByteSize
+
+const VerifDefaultL2HeadsPerPrune = defaultL2HeadsPerPrune
